@@ -531,7 +531,10 @@ def buffer_invariants(rep, prog, tag):
                 okp = bool(it2.probes)
                 detail = []
                 for c, st in it2.probes:
-                    r = it2.ref_of_operand(st, c.args[1])
+                    # the block operand: the byte-slice argument of the block routine (wherever it sits)
+                    bi = [i_ for i_, a_ in enumerate(c.args) if a_.get("k") in ("copy", "move") and not a_["p"]
+                          and g.locals[a_["l"]]["t"].replace("'_ ", "") in ("&[u8]", "&std::vec::Vec<u8>") and i_ > 0]
+                    r = it2.ref_of_operand(st, c.args[bi[0] if bi else 1])
                     ln = it2.len_of_ref(st, r)
                     if ln is None or not absint.entails_int(st.cons, L.eq(ln, L.lin_const(B))):
                         okp = False
